@@ -27,7 +27,7 @@ def rand_sched(rng, L, width):
 
 
 def rand_contender(rng, focus, maxr):
-    kind = rng.choice([0, 0, 0, 1]) if focus == "fifo" else rng.choice([0, 0, 1])
+    kind = rng.choice([0, 0, 0, 1, 2]) if focus == "fifo" else rng.choice([0, 0, 1, 2])
     nr = rng.randint(1, maxr)
     rounds = []
     for _ in range(nr):
@@ -57,7 +57,7 @@ def directed(rng, tier, tag):
     # (b) a release overlapping a request in flight: holder H = thread 0, requester W = thread 1.
     #     H: step, cas(ok) | cs, load, cas, (xchg)      W: step, cas(fails) | cas(null, fails), cas(publishes), m_pub tail
     for kh in (0, 1):
-        for kw in (0, 1):
+        for kw in (0, 1, 2):
             for rh in rels:
                 for m in merges([0, 0, 0, 0], [1, 1, 1]):
                     cont = [(kh, [(0, rh), (0, rng.choice(rels))]), (kw, [(0, rng.choice(rels))])]
@@ -94,7 +94,7 @@ def directed(rng, tier, tag):
     #     4 parties; every atomic operation on _requests is a scheduling point, marked by the library or not.
     nf = 160 if tier == "quick" else 2500
     for i in range(nf):
-        kinds = [rng.choice([0, 0, 1]) for _ in range(4)]
+        kinds = [rng.choice([0, 0, 1, 2]) for _ in range(4)]
         cont = [(kinds[0], [(0, rng.choice(rels)), (rng.choice([0, 1]), rng.choice(rels))]),
                 (kinds[1], [(0, rng.choice(rels)), (0, rng.choice(rels))]),
                 (kinds[2], [(rng.choice([0, 0, 1]), rng.choice(rels)), (0, rng.choice(rels))]),
@@ -191,7 +191,8 @@ def gen_own(seed, tier, focus):
     def rop():
         k = rng.choice([1, 1, 2, 2, 2, 3, 3, 4, 5, 5, 6, 7, 8])
         m, i, j = rng.randint(0, 1), rng.randint(0, 3), rng.randint(0, 3)
-        return {1: [1, m, j], 2: [2, m, j], 3: [3, j], 4: [4, j], 5: [5, i, j], 6: [6, i, j], 7: [7, j], 8: [8, m]}[k]
+        cb = [2, m, j] + [rng.randint(0, 3) for _ in range(rng.choice([0, 0, 1, 2]))]
+        return {1: [1, m, j], 2: cb, 3: [3, j], 4: [4, j], 5: [5, i, j], 6: [6, i, j], 7: [7, j], 8: [8, m]}[k]
     for c in range(n):
         style = rng.random()
         ops = []
@@ -203,12 +204,18 @@ def gen_own(seed, tier, focus):
             ops = [[1, a, j]] + [[2, a, rng.randint(0, 3)] for _ in range(rng.randint(0, 3))]
             ops += [rng.choice([[1, 1 - a, j], [1, b, j], [2, 1 - a, j], [5, i, j], [1, 1 - a, i], [6, i, j]])]
             ops += [[8, a], [8, 1 - a], [7, j]] + [rop() for _ in range(rng.randint(0, 8))]
-        elif style < 0.9:
+        elif style < 0.85:
             # re-entrancy: the next waiter's callback stores its ownership into the slot that is being given up
             a, j = rng.randint(0, 1), rng.randint(0, 3)
             ops = [[1, a, j], [2, a, j]] + [[2, a, rng.choice([j, rng.randint(0, 3)])] for _ in range(rng.randint(0, 3))]
             ops += [rng.choice([[3, j], [3, j], [1, 1 - a, j], [5, (j + 1) % 4, j], [1, a, j]])]
             ops += [[7, j], [8, a], [3, j], [3, j], [8, a]] + [rop() for _ in range(rng.randint(0, 6))]
+        elif style < 0.93:
+            # a callback that releases two ownerships (of two mutexes) inside the hand-over
+            a, j, i, q = rng.randint(0, 1), rng.randint(0, 3), rng.randint(0, 3), rng.randint(0, 3)
+            ops = [[1, a, j], [1, 1 - a, i], [2, a, q, q, i] if rng.random() < 0.5 else [2, a, q, i, q]]
+            ops += [[2, 1 - a, rng.randint(0, 3)] for _ in range(rng.randint(0, 2))]
+            ops += [[3, j], [8, a], [8, 1 - a]] + [rop() for _ in range(rng.randint(0, 6))]
         else:
             # release twice, destroy, self move, moved-from
             j, a = rng.randint(0, 3), rng.randint(0, 1)
@@ -226,4 +233,35 @@ def nontrivial_own(case, model_obs):
 
 
 def nontrivial_any(case, model_obs):
+    if case.engine == "mxb":
+        return sum(1 for o in case.ops if o and o[0] == 1) >= 2 and any(o and o[0] == 2 for o in case.ops)
     return nontrivial_own(case, model_obs) if case.engine == "mxo" else nontrivial(case, model_obs)
+
+
+# ---------------------------------------------------------------- coroutines without a coro_queue (engine mxb, seq_mutex_bare.cpp)
+def gen_bare(seed, tier):
+    rng = random.Random(seed * 1000003 + 919)
+    n = 300 if tier == "quick" else 3000
+    cases = []
+    for c in range(n):
+        k = rng.randint(1, 5)
+        ops, started, inside_known = [], 0, []
+        rels = [rng.choice([0, 1, 2, 2]) for _ in range(k)]
+        pending_open = []
+        L = rng.randint(2, 14)
+        for _ in range(L):
+            if started < k and (rng.random() < 0.55 or not pending_open):
+                ops.append([1, started, rels[started]]); pending_open.append(started); started += 1
+            elif pending_open:
+                # mostly the coroutine that is inside (the oldest not yet opened), sometimes a wrong one (rejected)
+                x = pending_open[0] if rng.random() < 0.85 else rng.choice(pending_open)
+                ops.append([2, x])
+                if x == pending_open[0]: pending_open.pop(0)
+        if rng.random() < 0.7:
+            while started < k:
+                ops.append([1, started, rels[started]]); pending_open.append(started); started += 1
+            for x in pending_open: ops.append([2, x])
+        if rng.random() < 0.1:
+            ops.insert(rng.randrange(len(ops) + 1), rng.choice([[2, 9], [1, 7, 0], [3], [1, 0, 5], [2, -1]]))
+        cases.append(Case("mxb", "b%d" % c, ops))
+    return cases
